@@ -5,6 +5,11 @@ open Rbacx Rbacx.Generated Rbacx.PyH Rbacx.Reloader PyVal
 
 attribute [local irreducible] PyH.thenFlow PyH.bindE PyH.tryCatch PyH.finish PyH.SatI PyH.SatT PyH.SatN
 
+/-- a leaf of a header segment: an exception out of `headers.get` is an `Exception` (`hE`), so the handler's `None` is handed on -/
+macro "header_leaf" hE:ident : tactic => `(tactic| (
+  try (have hc := $hE _ _ ‹_ = Except.error _›)
+  simp_all [etagHeaderOf, contentTypeOf, headerOf, SatN, pand_b2v_truthy, isNone_truthy, b2v_truthy, isInstance_str_truthy, Resp.hget]))
+
 section
 variable (url headers vs : PyVal) (imp : Except PyH.Exc PyVal) (get : PyVal → PyVal → PyVal → Except PyH.Exc PyH.Resp)
   (parse : PyVal → PyVal → PyVal → Except PyH.Exc PyVal) (validate : PyVal → Except PyH.Exc PyVal) (detect : PyVal → PyVal → PyVal)
@@ -100,8 +105,38 @@ theorem http_load_status_raises (u : PyVal) (hi : imp = .ok u) (r : PyH.Resp)
     Src.http_load url headers vs imp get parse validate detect st = (st, .error e) := by
   simp only [sentHeaders] at hg
   simp only [Src.http_load, hi, bindE_ok, tryCatch_next, thenFlow_next, thenFlow_ite_next, hg, eq_truthy, h304, b2v_truthy, hh, hr,
-    bindE_error, thenFlow_error, finish_error, if_true]
+    bindE_error, thenFlow_error, if_true]
   simp
+
+/-! ### what happens to `_etag` -/
+
+/-- once the answer is neither a 304 nor an error status, `_etag` is settled BEFORE the body is looked at: whatever happens next
+    — the body does not parse, validation rejects it, `.json()` raises, or the load succeeds — the tag afterwards is the `ETag` header
+    when that is a non-empty str, and the previous tag otherwise.  (So a load that FAILS in the parser or the validator has
+    already remembered the new tag, while `_policy_cache` is still the old document: `http_load_failure_keeps_cache`.) -/
+theorem http_load_etag_after (u : PyVal) (hi : imp = .ok u) (r : PyH.Resp)
+    (hg : get url (sentHeaders headers st.etag) (.int 5) = .ok r) (h304 : pyEq (r.attr "status_code") (.int 304) = false)
+    (hr : r.has "raise_for_status" = true → ∃ x, r.callRaise = .ok x) (hE : HeadersRaiseExceptions r) :
+    (Src.http_load url headers vs imp get parse validate detect st).1.etag = newEtag st.etag r := by
+  simp only [sentHeaders] at hg
+  simp only [Src.http_load, hi, bindE_ok, tryCatch_next, thenFlow_next, thenFlow_ite_next, hg, eq_truthy, h304, Bool.false_eq_true,
+    if_false]
+  refine satT_finish_all (P := fun (s : Src.http_State) => s.etag = newEtag st.etag r) ?_
+  apply satT_thenFlow' (I := fun (s : Src.http_State) => s = st) (I' := fun (s : Src.http_State) => s = st)
+  · sat_steps
+    all_goals simp_all
+  intro s _ hs
+  subst hs
+  apply satT_thenFlowN (N := fun s' v => s' = s ∧ v = etagHeaderOf r)
+  · satn_steps
+    all_goals header_leaf hE
+  rintro s' v ⟨rfl, rfl⟩
+  apply satT_thenFlow' (I := fun (s : Src.http_State) => s.etag = newEtag s'.etag r) (I' := fun (s : Src.http_State) => s.etag = newEtag s'.etag r)
+  · sat_steps
+    all_goals simp_all [newEtag, isStr_pand_truthy]
+  intro s _ hs
+  sat_steps
+  all_goals simp_all
 
 end
 end Rbacx.Translated
